@@ -57,11 +57,11 @@ def _read_log(path):
     return recs
 
 
-def run_writer(d, scenario, payload, inject, slow_ms=0, strace_when=None, kill_after=None, model_s=0.0, fail_call=None):
+def run_writer(d, scenario, payload, inject, slow_ms=0, strace_when=None, kill_after=None, model_s=0.0, fail_call=None, slow_call=None):
     db = os.path.join(d, "store.sqlite")
     log = os.path.join(d, "side.log")
     spec = {"root": _root(), "db": db, "log": log, "scenario": scenario, "payload": payload, "inject": inject,
-            "slow_ms": slow_ms, "model_s": model_s, "fail_call": fail_call}
+            "slow_ms": slow_ms, "model_s": model_s, "fail_call": fail_call, "slow_call": slow_call}
     cmd = [PY, WRITER, json.dumps(spec)]
     if strace_when is not None:
         cmd = ["strace", "-f", "-o", os.path.join(d, "strace.out"), "-P", db, "-P", db + "-journal",
@@ -209,15 +209,16 @@ def _cache_put(key, val):
             pass
 
 
-def dry_run(scenario, payload, model_s=0.0, fail_call=None):
-    key = ["dry", _root(), scenario, payload] + ([model_s] if model_s else []) + (["fail", fail_call] if fail_call else [])
+def dry_run(scenario, payload, model_s=0.0, fail_call=None, slow_call=None):
+    key = ["dry", _root(), scenario, payload] + ([model_s] if model_s else []) + (["fail", fail_call] if fail_call else []) + (
+        ["slow", slow_call] if slow_call else [])
     hit, val = _cache_get(key)
     if hit:
         return val
     if True:
         d = tempfile.mkdtemp(prefix="c11dry-")
         try:
-            db, log, rc = run_writer(d, scenario, payload, None, model_s=model_s, fail_call=fail_call)
+            db, log, rc = run_writer(d, scenario, payload, None, model_s=model_s, fail_call=fail_call, slow_call=slow_call)
             recs = _read_log(log)
             counts = [r for r in recs if r["e"] == "COUNTS"]
             if rc != 0 or not counts:
@@ -272,17 +273,19 @@ def check_point(case):
     sc, payload, inj = case["scenario"], case["payload"], case["inject"]
     ms = case.get("model_s") or 0.0
     fc = case.get("fail_call")
-    dry = dry_run(sc, payload, ms, fc)
+    slc = case.get("slow_call")
+    dry = dry_run(sc, payload, ms, fc, slc)
     d = tempfile.mkdtemp(prefix="c11-")
     try:
         kind = inj["kind"]
         where = "scenario %s/%s, crash %r" % (sc, payload, inj)
         if kind == "A":
             k = 1 + inj["k"] % dry["obj"]
-            db, log, rc = run_writer(d, sc, payload, {"kind": "A", "k": k}, model_s=ms, fail_call=fc)
+            db, log, rc = run_writer(d, sc, payload, {"kind": "A", "k": k}, model_s=ms, fail_call=fc, slow_call=slc)
             where = "scenario %s/%s%s, _exit in objective call %d of %d" % (
                 sc, payload, (", every model evaluation takes %g s on the (harness-owned) clock" % ms if ms else "") + (
-                    ", objective call %d fails transiently" % fc if fc else ""), k, dry["obj"])
+                    ", objective call %d fails transiently" % fc if fc else "") + (
+                    ", objective call %d takes 1.2 s under time_out = 0.5 s" % slc if slc else ""), k, dry["obj"])
         elif kind == "B":
             j = 1 + inj["j"] % dry["sql"]
             db, log, rc = run_writer(d, sc, payload, {"kind": "B", "j": j, "phase": inj["phase"]}, model_s=ms, fail_call=fc)
@@ -320,7 +323,7 @@ def check_point(case):
     died = not info["done"]
     nt = died and info["acks"] >= 1 and info["tries"] < dry["tries"] + (3 if sc == "parallel" else 0)
     return {"nt": nt, "classes": ["inj-" + kind, sc, payload, "died" if died else "survived",
-                                  "mid-history" if nt else "edge"] + (["slow-model-clock"] if ms else []) + (["transient-failure"] if fc else [])}
+                                  "mid-history" if nt else "edge"] + (["slow-model-clock"] if ms else []) + (["transient-failure"] if fc else []) + (["call-exceeds-time_out"] if slc else [])}
 
 
 @st.composite
@@ -343,13 +346,20 @@ def points(draw):
     case = {"scenario": draw(st.sampled_from(SCENARIOS)), "payload": draw(st.sampled_from(["small", "big"])),
             "inject": inj}
     if kind in ("A", "B"):
-        extra = draw(st.sampled_from([None, None, "fail", "fail", "slow", "slow"]))
+        extra = draw(st.sampled_from([None, None, "fail", "fail", "slow", "slow"] + (["late", "late"] if kind == "A" else [])))
         if extra == "fail":
             # one objective call fails transiently (the design is re-sampled and retried); crash points of interest are
             # the calls right after it
             case["fail_call"] = draw(st.integers(1, 6))
             if kind == "A":
                 inj["k"] = case["fail_call"] - 1 + draw(st.sampled_from([1, 1, 1, 2, 0]))
+        elif extra == "late":
+            # the problem declares time_out = 0.5 s and one objective call really takes 1.2 s (the following ones 0.35 s);
+            # the writer dies in one of the calls that follow (serial scenario, so that those calls are well defined)
+            case["scenario"] = "serial"
+            case["payload"] = "small"
+            case["slow_call"] = draw(st.integers(1, 3))
+            inj["k"] = case["slow_call"] - 1 + draw(st.sampled_from([2, 3, 3, 4]))
         elif extra == "slow":
             # an expensive model: each evaluation takes 6 s (or 700 s, beyond the default time_out) on the harness-owned clock
             case["model_s"] = draw(st.sampled_from([6.0, 6.0, 700.0]))
